@@ -38,6 +38,8 @@ LEVEL_TEXT = (
     "Theorems of coq/Props/C09.v hold for every tree, destination, write_into, cwd and every remote/local state "
     "satisfying the stated no-conflict hypotheses (Closed under the global context); C09_upload_dir_refuted shows "
     "the faithful model of upload() as found violates the documented placement (finding F1), "
+    "C09_upload_dir_view / C09_upload_dir_child_misplaced describe that defect for every input (the tree is laid out "
+    "below cwd/<last component>, every child is missing from the documented place), "
     "C09_upload_spec_fixed proves the full statement for the candidate fix, C09_upload_dir_spec_repo is the statement "
     "about whichever of the two forms client.py has now (read from the source by py2v on every run, third forms fail "
     "closed). The model is hand-written; its tie to "
